@@ -273,6 +273,52 @@ def r26(facts, res):
             res.bad(R, key, loc_of(b, bb), why + ': the two vectors gc returns no longer line up')
 
 
+def r27(facts, res):
+    """`closed_states` doubles as the to-do list: a changing merge re-opens its target only if that target currently HAS a closed
+    form (R2.1).  The state being processed can be the target of one of its own successors (a self-loop), so its freshly
+    computed closed form must already be stored when the merging starts - a store after the merges overwrites the
+    re-opening (or the re-opening never happens) and the stale closed form is final."""
+    R = 'R2.7'
+    b = pager(facts, R)
+    loops = b.loops()
+    ms = b.calls_named('weakly_merge')
+    if len(ms) != 1 or not loops:
+        res.lost(R, 'expected one weakly_merge call, found %d' % len(ms))
+        return
+    mb = ms[0][0]
+    main = max((h for h in loops if mb in loops[h]), key=lambda h: len(loops[h]))
+    stores = []
+    for bb in sorted(loops[main]):
+        for st in b.blocks[bb]['stmts']:
+            if st['k'] != 'assign' or st['lhs']['p'] != ['deref']:
+                continue
+            rv = st['rv']
+            def is_some(rv):
+                return isinstance(rv.get('agg'), dict) and rv['agg'].get('vname') == 'Some'
+            ok_some = is_some(rv)
+            if not ok_some and 'use' in rv:
+                src = op_local(rv['use'])
+                ds = b.defs().get(src, []) if src is not None else []
+                ok_some = bool(ds) and all(kind == 'stmt' and is_some(d) for _bb, kind, d in ds)
+            if not ok_some:
+                continue
+            r, projs, via = b.root(st['lhs']['l'], through=('index_mut',), stop_named=False)
+            if 'core::option::Option<lrtable::itemset::Itemset' in b.lty(r) and b.lty(r).startswith('alloc::vec::Vec<'):
+                stores.append(bb)
+    if not stores:
+        res.lost(R, 'no store of a closed form (Some(..)) into the closed-state vector found in the main loop')
+        return
+    late = [sb for sb in stores if sb in b.reachable(b.succs(mb), avoid={main})]
+    early = [sb for sb in stores if b.dominates(sb, mb)]
+    if late:
+        res.bad(R, 'closed-before-merge', loc_of(b, late[0]), 'the closed form of the state being processed is stored AFTER its successors were merged: a successor that merges '
+                'into this very state (self-loop) finds no closed form to invalidate, and the stale one becomes final (missing lookaheads)')
+    elif not early:
+        res.bad(R, 'closed-before-merge', loc_of(b, stores[0]), 'the store of the closed form does not dominate the merging of the successors')
+    else:
+        res.ok(R, 'closed-before-merge', loc_of(b, early[0]), 'the closed form is stored before any successor is merged, so a self-loop merge re-opens it')
+
+
 def r25(facts, res):
     """re-processing a state regenerates ALL its edges: every site that records an edge of the state being processed must
     overwrite a previous edge on that symbol (sibling agreement of the three recording sites)"""
@@ -318,3 +364,4 @@ def run(facts, res):
     r23(facts, res)
     r24(facts, res)
     r26(facts, res)
+    r27(facts, res)
